@@ -356,6 +356,7 @@ def element_templates(unm):
     add("CT_PatternFillProperties._new_bgClr", lambda: OxmlElement("a:pattFill")._new_bgClr())
     add("CT_PatternFillProperties._new_fgClr", lambda: OxmlElement("a:pattFill")._new_fgClr())
     add("CT_Background.add_noFill_bgPr", lambda: OxmlElement("p:bg").add_noFill_bgPr())
+    add("CT_Presentation._new_sldSz", lambda: OxmlElement("p:presentation")._new_sldSz())
     add("CT_Slide.new", CT_Slide.new)
     add("CT_Slide._childTnLst_timing_xml", lambda: parse_xml(CT_Slide._childTnLst_timing_xml()),
         complete=False)   # documented intermediate: p:childTnLst is empty until add_video appends (next row but one)
@@ -435,6 +436,7 @@ SITE_COVER = {
     "oxml/shapes/picture.py|CT_Picture.new_video_pic": "CT_Picture.new_video_pic",
     "oxml/shapes/groupshape.py|CT_GroupShape.new_grpSp": "CT_GroupShape.new_grpSp",
     "oxml/shapes/connector.py|CT_Connector.new_cxnSp": "CT_Connector.new_cxnSp",
+    "oxml/presentation.py|CT_Presentation._new_sldSz": "CT_Presentation._new_sldSz",
     "oxml/slide.py|CT_Background.add_noFill_bgPr": "CT_Background.add_noFill_bgPr",
     "oxml/slide.py|CT_NotesMaster.new_default": "CT_NotesMaster.new_default",
     "oxml/slide.py|CT_NotesSlide.new": "CT_NotesSlide.new",
